@@ -131,7 +131,7 @@ fn pipeline(t: &mut Tape, ctx: &mut Ctx) -> CheckResult {
             break; // keep sizes bounded
         }
         let mut what: String;
-        match t.choice(15) {
+        match t.choice(16) {
             0 => {
                 let tl = type_list(t, al, 3);
                 let g = gen::diagram_with_boundary(t, &sz, al, &b, &tl, ctx);
@@ -194,6 +194,27 @@ fn pipeline(t: &mut Tape, ctx: &mut Ctx) -> CheckResult {
                     a = optic_type(&o, &a);
                     b = optic_type(&o, &b);
                 }
+            }
+            15 => {
+                // the lax constructors: _ ; twist(B1,B2) and id | _ in the lax representation
+                let k = t.range(0, b.len());
+                let (b1, b2) = (b[..k].to_vec(), b[k..].to_vec());
+                let c0 = type_list(t, al, 2);
+                what = format!("lax: id({:?}) | (_ ; twist({:?},{:?}))", c0, b1, b2);
+                let tw = <LOH as SymmetricMonoidal>::twist(obs(&b1), obs(&b2));
+                let swapped: Vec<u32> = b2.iter().chain(b1.iter()).copied().collect();
+                from_lax(&tw).map_err(|e| ctx.fail("output-well-formed", format!("lax twist: {e}")))?;
+                ensure!(ctx, crate::labels::unobs(&Arrow::source(&tw)) == b && crate::labels::unobs(&Arrow::target(&tw)) == swapped, "output-type", "lax twist({:?},{:?}) has type {:?} -> {:?}", b1, b2, Arrow::source(&tw), Arrow::target(&tw));
+                let id = <LOH as Arrow>::identity(obs(&c0));
+                from_lax(&id).map_err(|e| ctx.fail("output-well-formed", format!("lax identity: {e}")))?;
+                ensure!(ctx, crate::labels::unobs(&Arrow::source(&id)) == c0 && crate::labels::unobs(&Arrow::target(&id)) == c0, "output-type", "lax identity({:?}) has the wrong type", c0);
+                let l = LOH::from_strict(cur.clone());
+                let c = Arrow::compose(&l, &tw).ok_or_else(|| ctx.fail("compose-defined", "lax _ ; twist undefined although the types match"))?;
+                let c = &id | &c;
+                from_lax(&c).map_err(|e| ctx.fail("output-well-formed", format!("lax id | (_ ; twist): {e}")))?;
+                cur = c.to_strict();
+                a = c0.iter().copied().chain(a).collect();
+                b = c0.iter().copied().chain(swapped).collect();
             }
             8 => {
                 what = "to_strict(from_strict(_))".into();
